@@ -558,8 +558,10 @@ def gen_leaf_cfg(rng):
     kvs = [['_default', default]]
     if upd is not None:
         kvs.append(['_updater', upd])
-    if fam == 'qty' and rng.random() < 0.3:
-        kvs.append(['_units', default['l'][2]])
+    if fam == 'qty' and rng.random() < 0.45:
+        # declared units, independent of the unit the default happens to be written in
+        # (the finest unit of the table, so that every conversion stays an exact integer)
+        kvs.append(['_units', rng.choice(['mm', default['l'][2]])])
     if rng.random() < 0.15:
         kvs.append(['_divider', rng.choice(['split', 'set', 'zero'])])
     rng.shuffle(kvs)
